@@ -235,6 +235,16 @@ def one(cases, rng, tier, rep, d):
             mk(cases, "ctor/ttm-shape-mismatch/" + tag, lambda: torchtt.TT(tn.ones(2, 3, 2, 3), [(2, 2), (2, 2)]), None)
             mk(cases, "to_qtt/not-a-power/" + tag, lambda: rnd_tt(rng, [6, 3][:max(1, min(d, 2))]).to_qtt(), ShapeMismatch, finding="C18/to_qtt-non-power-tensor")
             mk(cases, "qtt_to_tens/mismatch/" + tag, lambda: rnd_tt(rng, [2, 2, 2]).qtt_to_tens([3, 2]), ShapeMismatch)
+            # target shapes that fold only a PROPER PREFIX of the modes (operands with rank 1 at the cut: the truncated core list would be
+            # accepted by the constructor), shapes that are too long, a TT-matrix operand; control: the full folding
+            q1 = torchtt.ones([2, 2, 2, 2])
+            q2 = torchtt.kron(rnd_tt(rng, [2, 2]), rnd_tt(rng, [2, 2]))          # rank 1 in the middle
+            for qn, q in (("ones", q1), ("kron", q2)):
+                for shp in ([4], [2], [4, 2], [2, 2], [2, 2, 2], [8]):
+                    mk(cases, "qtt_to_tens/prefix-%s/%s/%s" % (qn, "x".join(map(str, shp)), tag), lambda q=q, shp=shp: q.qtt_to_tens(list(shp)), None,
+                       model=J("guard2", "qtt_to_tens", shape_tok(q), len(shp), shp))
+                mk(cases, "qtt_to_tens/too-long-%s/%s" % (qn, tag), lambda q=q: q.qtt_to_tens([4, 4, 2]), ShapeMismatch, model=J("guard2", "qtt_to_tens", shape_tok(q), 3, [4, 4, 2]))
+            mk(cases, "qtt_to_tens/ttm/" + tag, lambda: torchtt.eye([2, 2]).qtt_to_tens([4]), None, model=J("guard2", "qtt_to_tens", shape_tok(torchtt.eye([2, 2])), 1, [4]))
             mk(cases, "layer/initializer/" + tag, lambda: torchtt.nn.LinearLayerTT([2], [2], [1, 1], initializer="xx"), InvalidArguments)
             mk(cases, "amen_solve/preconditioner/" + tag, lambda: torchtt.solvers.amen_solve(spd_ttm(rng, [2, 2]), rnd_tt(rng, [2, 2]), preconditioner="zz", use_cpp=False, verbose=False), InvalidArguments)
             mk(cases, "rtruediv/wrong-type/" + tag, lambda x=x: "a" / x, InvalidArguments)
